@@ -31,6 +31,9 @@ type G struct {
 	pending int // items promised by nItems and not yet counted in Items
 	// Plain biases toward attribute-free items (cheap, large batches).
 	Plain bool
+	// Bare forbids attributes, events, links and exemplars altogether, so that
+	// the main record has no id column and no related record exists.
+	Bare bool
 	// Budget, when > 0, bounds the items of the whole batch (the round-trip
 	// domain allows at most 65,535 id-bearing parents per table).
 	Budget int
@@ -137,7 +140,7 @@ func (g *G) deep(v pcommon.Value, n int) {
 }
 
 func (g *G) attrs(m pcommon.Map) {
-	if g.Plain && !g.p(1, 8) {
+	if g.Bare || (g.Plain && !g.p(1, 8)) {
 		return
 	}
 	n := g.w(3, 4, 3, 2, 1)
@@ -276,7 +279,7 @@ func (g *G) span(sp ptrace.Span) {
 	sp.SetSpanID(g.spanID())
 	sp.SetParentSpanID(g.spanID())
 	sp.SetName(g.str())
-	if g.Plain && !g.p(1, 6) {
+	if g.Bare || (g.Plain && !g.p(1, 6)) {
 		sp.SetStartTimestamp(pcommon.Timestamp(1000 + g.d(5)))
 		sp.SetEndTimestamp(pcommon.Timestamp(2000))
 		return
@@ -355,7 +358,7 @@ func (g *G) Logs() plog.Logs {
 func (g *G) logRecord(lr plog.LogRecord) {
 	lr.SetTimestamp(g.ts())
 	lr.SetObservedTimestamp(g.ts())
-	if g.Plain && !g.p(1, 6) {
+	if g.Bare || (g.Plain && !g.p(1, 6)) {
 		lr.Body().SetStr(g.str())
 		return
 	}
@@ -407,6 +410,9 @@ func (g *G) temporality() pmetric.AggregationTemporality {
 func (g *G) nPoints() int { return g.w(2, 4, 3, 2, 1) }
 
 func (g *G) exemplars(es pmetric.ExemplarSlice) {
+	if g.Bare {
+		return
+	}
 	n := g.w(6, 2, 1)
 	for i := 0; i < n; i++ {
 		ex := es.AppendEmpty()
